@@ -42,8 +42,8 @@ ALLOW = [
      "reads the size of an input vector to pick the parallel path"),
     (r"^Winding03_$", r"^componentsShared \. combine_each \(", "neutral",
      "merges thread-local sets into a local set; a skipped chunk only makes it smaller; discarded by the check that follows"),
-    (r"Boolean3::Boolean3$", r"^if \( xv12_ \. x12 \. size \( \) > INT_MAX_SZ \|\| xv21_ \. x12 \. size \( \) > INT_MAX_SZ \)", "neutral",
-     "reads two sizes; on cancel Intersect12 returned an empty record, so the branch is not taken and nothing partial is read"),
+    (r"Boolean3::Boolean3$", r"^if \( xv12_ \. x12 \. size \( \) > INT_MAX_SZ \|\| xv21_ \. x12 \. size \( \) > INT_MAX_SZ \)", "indep",
+     "reads two sizes; on cancel Intersect12 returned an empty record, so the branch is not taken; the branch only sets the bool `valid` and returns"),
     (r"Boolean3::Result$", r"^outR \. IncrementMeshIDs \( \) ;$", "neutral",
      "rewrites meshRelation_ IDs through a map lookup per triRef entry; no index derived from the (possibly unsorted) geometry; result discarded by the next phase()"),
     (r"CreateLevelSet$", r"^if \( gridVerts \. Full \( \) \)", "neutral",
@@ -68,8 +68,8 @@ STATUS_LEVEL = r"^(SimpleBoolean|BatchBoolean|BatchUnion|CsgOpNode::ToLeafNode|M
 
 NOOP = re.compile(r"^(ZoneScoped ;|ZoneScopedN \(|PRINT \(|DEBUG_ASSERT \(|\( void \) \w+ ;|;$)")
 DECL = re.compile(r"^(?:static |const |constexpr |thread_local |mutable |typename )*"
-                  r"(?:struct |class |using |typedef |auto |[A-Za-z_][\w]*(?: :: [A-Za-z_]\w*)*(?: < [^;(){}]* >)?(?: :: [A-Za-z_]\w*)*)"
-                  r"\s*(?:[&*] |const )*(?:\[ [^\]]* \] |[A-Za-z_]\w* )(?:=|\(|\{|;|\[|:)")
+                  r"(?:struct |class |using |typedef |auto |[A-Za-z_][\w]*(?: :: [A-Za-z_]\w*)*(?: < [^;(){}]* >)?(?: :: [A-Za-z_]\w*)* )"
+                  r"(?:[&*] |const )*(?:\[ [^\]]* \] |[A-Za-z_]\w* )(?:=|\(|\{|;|\[|:)")
 NOT_DECL_FIRST = {"return", "delete", "throw", "goto", "else", "case", "break", "continue", "if", "for", "while", "do", "switch", "new"}
 TOK = re.compile(r"[A-Za-z_]\w*|\d[\w.]*|::|->|==|!=|<=|>=|&&|\|\||\+\+|--|<<|>>|\+=|-=|\*=|/=|\S")
 
